@@ -145,7 +145,7 @@ class TheCheck(Check):
 
     def judge(self, op, line):
         w, f = op.split(), line.split()
-        if w[0] in ("ini", "inif", "inifp", "ac", "acp", "acpipe", "fread"):
+        if w[0] in ("ini", "inif", "inifp", "ac", "acp", "acpipe", "acre", "fread"):
             return c17_parsers.parser_judge(op, line) if c17_parsers is not None else None
         if line.startswith("fault"):
             return "%s on input %s" % (line, op)
@@ -158,6 +158,6 @@ class TheCheck(Check):
         return None
 
     def classify(self, op, detail):
-        if c17_parsers is not None and op.split()[0] in ("ini", "inif", "inifp", "ac", "acp", "acpipe", "fread"):
+        if c17_parsers is not None and op.split()[0] in ("ini", "inif", "inifp", "ac", "acp", "acpipe", "acre", "fread"):
             return c17_parsers.parser_classify(op, detail)
         return "qencode:" + op.split()[0]
